@@ -30,6 +30,10 @@ PROBES = [None, 0, 1, "a", "ab", [], [1], {}, {"a": 1}, 1.5, True, b"x"]
 def observe(s):
     """everything a user can see of a schema without a reference to its internals"""
     try:
+        declared = (tuple(s.props), repr(s.props))      # FIRST: the declared properties as `schema.props` lists them
+    except Exception as e:  # noqa: BLE001
+        declared = type(e).__name__
+    try:
         text = repr(s)
     except Exception as e:  # noqa: BLE001
         text = "repr raised " + type(e).__name__
@@ -46,7 +50,7 @@ def observe(s):
         enc = "unencodable"
     (k, g), _ = SR.generate(s, SR.make_policy("lo", None))
     gen = repr(g) if k == "ok" else type(g).__name__
-    return (text, tuple(verdicts), enc, gen)
+    return (text, tuple(verdicts), enc, gen, declared)
 
 
 def deep_snapshot(x):
